@@ -247,7 +247,11 @@ def run(rep: Report, tier: str) -> None:
     # ---- R16.3 other acquisitions ---------------------------------------------------------------------------
     reach_api = cg.reachable_from([a for a in API if a in P.functions])
     nacq = 0
-    for q in sorted(reach_api | {f"{CFGMOD}.create_configured_connection"}):
+    # operator validation methods are reached through dispatch tables the call graph does not resolve: include every function
+    # of the Operators / Interpreter / transpiler packages that opens something
+    dispatched = {f_.qualname for f_ in P.iter_functions() if f_.module.name.startswith(("vtlengine.Operators", "vtlengine.Interpreter", "vtlengine.duckdb_transpiler"))
+                  and any(isinstance(c_, ast.Call) and (dotted(c_.func) or "").endswith(("duckdb.connect", "open")) for c_ in walk_no_nested(f_.node))}
+    for q in sorted(reach_api | dispatched | {f"{CFGMOD}.create_configured_connection"}):
         fn = P.functions[q]
         if q in (f.qualname, f2.qualname):
             continue
@@ -288,8 +292,23 @@ def run(rep: Report, tier: str) -> None:
                     reln = release_nodes(gq, lambda c, v=v: _is_call_to(c, v, "close"), v)
                     key = f"connect/{q}"
                     if q in R163_EXEMPT:
-                        rep.instance("R16.3", key, nontrivial=True)
+                        # reasoned exemption, made precise: statements that execute a CONSTANT configuration command on the fresh
+                        # connection (and imports) are taken not to fail; everything else between connect and close is checked
                         rep.exemption("R16.3", q, R163_EXEMPT[q])
+
+                        def quiet(node_: Node, v=v) -> bool:
+                            st_ = node_.stmt
+                            if isinstance(st_, (ast.Import, ast.ImportFrom)):
+                                return False
+                            if isinstance(st_, ast.Expr) and isinstance(st_.value, ast.Call) and _is_call_to(st_.value, v, "execute") \
+                                    and len(st_.value.args) == 1 and isinstance(st_.value.args[0], ast.Constant) and not st_.value.keywords:
+                                return False
+                            from sa.cfg import default_may_raise
+                            return default_may_raise(node_)
+                        gx = CFG(fn.node, may_raise=quiet)
+                        acqx = [x for x in gx.nodes if x.kind == "stmt" and x.stmt is par]
+                        relx = release_nodes(gx, lambda c, v=v: _is_call_to(c, v, "close"), v)
+                        pairing(rep, "R16.3", fn, gx, f"connection `{v}`", acqx, relx, [gx.exit, gx.raise_exit], "connect")
                     else:
                         pairing(rep, "R16.3", fn, gq, f"connection `{v}`", acqn, reln, [gq.exit, gq.raise_exit], "connect")
     rep.floor("resource acquisition sites reachable from the API", nacq, 6)
@@ -331,13 +350,27 @@ def run(rep: Report, tier: str) -> None:
     for f_ in sub.findings:
         if f_.rule == "R30.4":
             rep.add(Finding("R16.5", f_.key.replace("R30.4", "R16.5"), f_.file, f_.line, f_.func, f_.message + " - a configuration error of one run() changes the outcome of the next"))
+    # ---- R16.6: memoised functions are process-lifetime state ----
+    rep.rule("R16.6", "memoised functions: reviewed inventory; a new one must return an immutable value that depends only on its arguments")
+    from sa import globalsx as _gx
+    nmemo = 0
+    for f_ in P.iter_functions():
+        if any(d in _gx.CACHE_DECOS or d.split(".")[-1] in _gx.CACHE_DECOS for d in f_.decorators):
+            nmemo += 1
+            rep.instance("R16.6", f"memo/{f_.qualname}", nontrivial=True, sample={"reviewed": f_.qualname in _gx.MEMO_REVIEWED})
+            if f_.qualname in _gx.MEMO_REVIEWED:
+                rep.exemption("R16.6", f_.qualname, _gx.MEMO_REVIEWED[f_.qualname])
+    for f_, why_, line_ in _gx.memo_findings(P):
+        rep.add(Finding("R16.6", f"R16.6/memo/{f_.qualname}", f_.module.rel, line_, f_.qualname,
+                        f"{f_.name} is memoised and {why_}: what one call (one run, one parse, one thread) does to the cached value is seen by every later call in the process"))
+    rep.floor("R16.6 memoised functions", nmemo, 3)
     rep.assumptions = ["any statement containing a call, subscript, arithmetic or yield may raise (over-approximation)",
                        "`if <res> is not None:` guarding a release is infeasible-false once the resource is bound",
                        "rmtree(ignore_errors=True) and close() are the release operations"]
 
 
 R163_EXEMPT = {
-    "vtlengine.Operators.General.Eval._validate_query_schema":
-        "eval's schema-validation connection: in-memory, never used for data; the unpaired window contains only constant SET statements "
-        "(no input makes them fail) and the handle is closed on both outcomes of the query itself",
+    "vtlengine.Operators.General.Eval._execute_query":
+        "eval's schema-validation connection: in-memory, never used for data; constant SET commands on the fresh connection are taken not to "
+        "fail (no input reaches them); every other statement between connect and close is checked for pairing on both exits",
 }
